@@ -39,6 +39,10 @@ def shards(tier):
     for f in FIN:
         sh.append({"name": f + "-skewed", "family": f, "mode": "skewed", "minN": 8, "maxN": 24 if q else 40, "examples": 220 if q else 1500,
                    "budget_s": 100 if q else 2400})
+    # the adaptive estimator / bet are where predictability can be lost: twice the search there
+    for f in ("alpha-shrink", "bet-agrapa"):
+        sh.append({"name": f + "-skewed-2", "family": f, "mode": "skewed", "minN": 8, "maxN": 24 if q else 40, "examples": 220 if q else 1500,
+                   "budget_s": 100 if q else 2400, "adaptive": True})
     for f in IID:
         sh.append({"name": f, "family": f, "mode": "iid", "maxL": 8 if q else 9, "examples": 200 if q else 2000, "budget_s": 100 if q else 2400})
     return sh
@@ -181,6 +185,10 @@ def strategy(shard):
                 pop = [min(v, t) for v in pop]
         cfg = draw(nonneg.config(fam, ut=(u, t), min_N=N, max_N=N, dyadic_g=True))
         cfg["N"] = N
+        if shard.get("adaptive") and fam == "alpha-shrink":
+            # the options that make the estimator look at the spread of the data (off by default)
+            cfg["kw"]["f"] = draw(st.sampled_from([0.01, 0.1, 1.0, 3.0]))
+            cfg["kw"]["d"] = draw(st.sampled_from([1, 10, 20, 100]))
         return {"cfg": cfg, "pop": [float(v) for v in pop], "regime": "skewed"}
 
     if shard["mode"] == "skewed":
@@ -218,6 +226,9 @@ def evaluate(case, out):
         for arr in er.multiset_permutations(pop):
             m = 1.0
             try:
+                if rounds:
+                    # one audit = one test object looked at after every round: each ordering is a separate audit
+                    test = nonneg.make_test(cfg)
                 for k in list(rounds) + [N]:
                     p, h = test.test(arr_of(arr[:k]))
                     h = np.asarray(h, dtype=float)
